@@ -1925,6 +1925,237 @@ func F§() {
 	_ = map[interface{}]int{"j ": 1, 2: 2, kTotal§: 3}
 	_ = []string{0: "k ", 1: "l"}
 }
+### bigsets | stmts
+func swA§(x int) int {
+	switch x {
+	case 0:
+		return 1
+	case 1:
+		return 2
+	case 2:
+		return 3
+	case 3:
+		return 4
+	case 4:
+		return 5
+	case 5:
+		return 6
+	case 6:
+		return 7
+	case 7:
+		return 8
+	case 8:
+		return 9
+	case 9:
+		return 10
+	case 10:
+		return 11
+	case 11:
+		return 12
+	case 12:
+		return 13
+	case 13:
+		return 14
+	case 14:
+		return 15
+	case 15:
+		return 16
+	case 16:
+		return 17
+	case 17:
+		return 18
+	case 18:
+		return 19
+	}
+	return -1
+}
+func swB§(x int) int {
+	switch x {
+	case 0:
+		return 1
+	case 1:
+		return 2
+	case 2:
+		return 3
+	case 3:
+		return 4
+	case 4:
+		return 5
+	case 5:
+		return 6
+	case 6:
+		return 7
+	case 7:
+		return 8
+	case 8:
+		return 9
+	case 9:
+		return 10
+	case 10:
+		return 11
+	case 11:
+		return 12
+	case 12:
+		return 13
+	case 13:
+		return 14
+	case 14:
+		return 15
+	case 15:
+		return 16
+	case 16:
+		return 17
+	case 17:
+		return 18
+	case 18:
+		return 19
+	}
+	return -2
+}
+func swS§(s string) int {
+	switch s {
+	case "w0":
+		return 0
+	case "w1":
+		return 1
+	case "w2":
+		return 2
+	case "w3":
+		return 3
+	case "w4":
+		return 4
+	case "w5":
+		return 5
+	case "w6":
+		return 6
+	case "w7":
+		return 7
+	case "w8":
+		return 8
+	case "w9":
+		return 9
+	case "w10":
+		return 10
+	case "w11":
+		return 11
+	case "w12":
+		return 12
+	case "w13":
+		return 13
+	case "w14":
+		return 14
+	case "w15":
+		return 15
+	case "w16":
+		return 16
+	case "w17":
+		return 17
+	}
+	return -3
+}
+func swT§(s string) int {
+	switch s {
+	case "w0":
+		return 0
+	case "w1":
+		return 1
+	case "w2":
+		return 2
+	case "w3":
+		return 3
+	case "w4":
+		return 4
+	case "w5":
+		return 5
+	case "w6":
+		return 6
+	case "w7":
+		return 7
+	case "w8":
+		return 8
+	case "w9":
+		return 9
+	case "w10":
+		return 10
+	case "w11":
+		return 11
+	case "w12":
+		return 12
+	case "w13":
+		return 13
+	case "w14":
+		return 14
+	case "w15":
+		return 15
+	case "w16":
+		return 16
+	case "w17":
+		return 17
+	}
+	return -4
+}
+func mapA§() map[int]string {
+	return map[int]string{
+		0: "v0",
+		1: "v1",
+		2: "v2",
+		3: "v3",
+		4: "v4",
+		5: "v5",
+		6: "v6",
+		7: "v7",
+		8: "v8",
+		9: "v9",
+		10: "v10",
+		11: "v11",
+		12: "v12",
+		13: "v13",
+		14: "v14",
+		15: "v15",
+		16: "v16",
+		17: "v17",
+		18: "v18",
+	}
+}
+func mapB§() map[int]string {
+	return map[int]string{
+		0: "v0",
+		1: "v1",
+		2: "v2",
+		3: "v3",
+		4: "v4",
+		5: "v5",
+		6: "v6",
+		7: "v7",
+		8: "v8",
+		9: "v9",
+		10: "v10",
+		11: "v11",
+		12: "v12",
+		13: "v13",
+		14: "v14",
+		15: "v15",
+		16: "v16",
+		17: "v17",
+		18: "v18",
+	}
+}
+### cyclicptr | paren
+type P§ *P§
+type A§ *B§
+type B§ *A§
+type L§ []L§
+type M§ map[string]M§
+type Fn§ func(Fn§) Fn§
+type C§ chan C§
+type S§ struct {
+	next *S§
+	p    P§
+}
+func follow§(p *P§, a *A§, b **B§, l *L§, m *M§, f *Fn§, c *C§, s *S§) (P§, *M§, **A§) {
+	return *p, m, &a
+}
+func deref§(p P§, a A§) (P§, B§) { return *p, *a }
 ### multiopts | exprs
 type opt§ func(*int)
 func withA§(x int) opt§ { return func(*int) {} }
